@@ -335,6 +335,71 @@ def pairs_gene_deletions(model, gids):
     return out
 
 
+def sampler_dump(sampler) -> dict:
+    """The matrix problem a sampler works on, as exact rationals."""
+    import numpy as np
+    P = sampler.problem
+    num = canon.num
+
+    def rows(a):
+        a = np.asarray(a)
+        if a.size == 0:
+            return []
+        return [[num(float(c)) for c in row] for row in np.atleast_2d(a)]
+    bounds = np.asarray(P.bounds)
+    vb = np.asarray(P.variable_bounds)
+    return {"equalities": rows(P.equalities), "b": [num(float(c)) for c in np.asarray(P.b).ravel()],
+            "inequalities": rows(P.inequalities),
+            "bounds": [] if bounds.size == 0 else [[num(float(bounds[0, k])), num(float(bounds[1, k]))] for k in range(bounds.shape[1])],
+            "fixed": [bool(x) for x in np.asarray(P.variable_fixed).ravel()],
+            "var_bounds": [[num(float(vb[0, k])), num(float(vb[1, k]))] for k in range(vb.shape[1])],
+            "homogeneous": bool(P.homogeneous)}
+
+
+def sampler_diff(pred: dict, got: dict) -> list[str]:
+    out = []
+    for k in ("fixed", "var_bounds", "homogeneous"):
+        if pred[k] != got[k]:
+            out.append(f"{k}: model {pred[k]} / sampler {got[k]}")
+    # rows of the two blocks as multisets (the order of the solver's constraint list is not part of the claim)
+    def block(d, rows, rhs):
+        return sorted(json.dumps([r, b]) for r, b in zip(d[rows], d[rhs]))
+    for rows, rhs in (("equalities", "b"), ("inequalities", "bounds")):
+        if len(pred[rows]) != len(pred[rhs]) or len(got[rows]) != len(got[rhs]):
+            out.append(f"{rows}: {len(got[rows])} rows but {len(got[rhs])} right-hand sides in the sampler ({len(pred[rows])} / {len(pred[rhs])} in the model)")
+        a, b = block(pred, rows, rhs), block(got, rows, rhs)
+        if a != b:
+            only_m = [x for x in a if x not in b][:2]
+            only_s = [x for x in b if x not in a][:2]
+            out.append(f"{rows}: only in the model {only_m}; only in the sampler {only_s}")
+    return out
+
+
+def sampler_pair(model, extra, method="achr"):
+    """(builder line, sampler dump): `extra` = [{"name", "lb", "ub", "co": {rid: coef}}] user constraints already added to the model."""
+    from cobra.sampling import ACHRSampler, OptGPSampler
+    net = net_json(model)
+    idx = {r.id: i for i, r in enumerate(model.reactions)}
+    s = (ACHRSampler if method == "achr" else OptGPSampler)(model, thinning=1, seed=1)
+    line = {"net": net, "build": "sampler", "tol": canon.num(model.tolerance),
+            "extra": [{"name": e["name"], "lb": e["lb"], "ub": e["ub"], "co": [[idx[r], c] for r, c in e["co"].items()]} for e in extra]}
+    return line, sampler_dump(s)
+
+
+def compare_sampler(pairs, label, stats, broken, case=None):
+    preds = predicted([p[0] for p in pairs])
+    bad = []
+    for (line, got), pred in zip(pairs, preds):
+        stats[label] = stats.get(label, 0) + 1
+        d = sampler_diff(pred, got)
+        if d:
+            bad.append(d)
+            if len(broken) < 5:
+                broken.append({"kind": "correspondence", "name": f"AuxM.Prob.sampler (lean/CobraModel/Model/AuxProb.lean) vs HRSampler.problem in {label}",
+                               "detail": d[:6], "net": line["net"], "extra": line["extra"], "case": case})
+    return bad
+
+
 def compare(pairs, label: str, stats: dict, broken: list, case=None):
     """Run the builder lines through the Lean driver and diff with what was captured.  Mismatches go to `broken` (a correspondence
     that no longer holds is not by itself a violation: the caller searches for a failing input)."""
